@@ -157,10 +157,27 @@ class ForNode(Node):
         """Return this node's expressions."""
         yield self.expression
 
+
+
+class LoopBlockNode(BlockNode):
+    """The block of a `for` tag that is rendered once per item.
+
+    The loop variable and `forloop` are in scope here, and only here: the `else`
+    block of the tag is rendered when there is nothing to loop over, outside the
+    loop's namespace.
+    """
+
+    __slots__ = ("names",)
+
+    def __init__(
+        self, token: TokenT, nodes: list[Node], names: list[Identifier]
+    ) -> None:
+        super().__init__(token, nodes)
+        self.names = names
+
     def block_scope(self) -> Iterable[Identifier]:
         """Return variables this node adds to the node's block scope."""
-        yield Identifier(self.expression.identifier, token=self.expression.token)
-        yield Identifier("forloop", token=self.token)
+        return self.names
 
 
 class ForTag(Tag):
@@ -184,7 +201,14 @@ class ForTag(Tag):
 
         block_token = stream.current()
         assert block_token is not None
-        block = BlockNode(block_token, parse_block(stream, end=self.end_block))
+        block = LoopBlockNode(
+            block_token,
+            parse_block(stream, end=self.end_block),
+            [
+                Identifier(expression.identifier, token=expression.token),
+                Identifier("forloop", token=token),
+            ],
+        )
 
         default: BlockNode | None = None
 
